@@ -11,7 +11,44 @@ WM = walkrun.WM
 L = patsets.L
 
 
+def empty_pattern_lemma(chk):
+    """finite, exact: with an empty file pattern the file check denotes ALL names (str and bytes), decided by relang over the whole alphabet"""
+    import os
+    import tempfile
+    import time
+    from vlib import relang as R
+    from vlib.common import REPO
+    d = tempfile.mkdtemp(prefix='wcv-c14-')
+    try:
+        for root, pat in ((d, ''), (os.fsencode(d), b'')):
+            ob = 'C14.finite.empty_file_pattern_selects_every_name[%s]' % type(pat).__name__
+            t0 = time.time()
+            w = WM.WcMatch(root, pat)
+            fc = w.file_check
+            inc, exc = tuple(getattr(fc, '_include', ())), tuple(getattr(fc, '_exclude', None) or ())
+            maxc = 255 if isinstance(pat, bytes) else R.UMAX
+            try:
+                r = None if (len(inc) == 1 and not exc) else ((), 'shape', 'one inclusion regex')
+                if r is None:
+                    r = R.equal(R.Impl(inc[0]), R.Spec(R.s_star(R.s_cls(((0, maxc),))), maxc))
+            except R.Unsupported as e:
+                chk.undecide(ob, e)
+                chk.obligation(ob, 'undecided', 'finite')
+                continue
+            if r is None:
+                chk.obligation(ob, 'proved', 'finite', time.time() - t0, function='wcmatch.WcMatch.__init__', detail=repr(inc[0].pattern))
+            else:
+                wname = R.to_str(r[0], isinstance(pat, bytes)) if r[0] != () else ''
+                chk.violation(dict(obligation=ob, witness=wname), f'WcMatch(root, {pat!r}).file_check does not accept every name: {wname!r} is rejected ({inc and inc[0].pattern!r}, flags {inc and inc[0].flags})',
+                              f"import sys, os, tempfile; sys.path.insert(0, {REPO!r})\nfrom wcmatch import wcmatch\nd = tempfile.mkdtemp()\nname = {wname!r}\n"
+                              f"w = wcmatch.WcMatch(os.fsencode(d) if isinstance(name, bytes) else d, {pat!r})\nok = w.file_check.match(name)\nprint('file_check.match', repr(name), '->', ok)\nos.rmdir(d)\nsys.exit(0 if ok else 1)\n")
+                chk.obligation(ob, 'refuted', 'finite', time.time() - t0)
+    finally:
+        os.rmdir(d)
+
+
 def run(chk, tier, seed):
+    empty_pattern_lemma(chk)
     star, q = ('star',), ('q',)
     txt = (star, L('.'), L('t'), L('x'), L('t'))
     a, d, e = (L('a'),), (L('d'),), (L('e'),)
